@@ -38,12 +38,13 @@ def main():
     sel = sys.argv[1:]
     tier = os.environ.get("VERIF_TIER", "quick")
     bad = 0
-    for m in ms:
-        if sel and not any(s in m["name"] or s in m["properties"] for s in sel):
-            continue
-        ok, info = run_one(m, tier)
-        print("%s %-34s expect=%-9s %s" % ("PASS" if ok else "FAIL", m["name"], m["expect"], info))
-        bad += 0 if ok else 1
+    todo = [m for m in ms if not sel or any(s in m["name"] or s in m["properties"] for s in sel)]
+    jobs = int(os.environ.get("VERIF_JOBS", "1"))
+    from concurrent.futures import ThreadPoolExecutor
+    with ThreadPoolExecutor(max_workers=jobs) as ex:
+        for m, (ok, info) in zip(todo, ex.map(lambda m: run_one(m, tier), todo)):
+            print("%s %-34s expect=%-9s %s" % ("PASS" if ok else "FAIL", m["name"], m["expect"], info), flush=True)
+            bad += 0 if ok else 1
     print("selftest: %d failing" % bad)
     return 1 if bad else 0
 
